@@ -142,9 +142,9 @@ def gen_workload(rng, fmt, ch, kind=None, nops=10, short=False):
        every script is sprinkled with invalid calls and sf_error (h) probes, failing opens on the aux slot h8,
        and calls with a NULL handle, and ends with a digest of every store it used."""
     kind = kind or rng.choice(["w", "rs", "rs", "rw"] if fmt.codec in RDWR_CODECS and fmt.major not in (0x16,) else ["w", "rs", "rs"])
-    # OKI/VOX ADPCM packs two samples per byte: an odd item count makes the codec touch one sample past the caller's buffer
-    # (known finding KF-VOX-ODD, an ASan abort in this harness); the workloads stay inside the codec's contract
-    vox = fmt.codec == 0x21
+    # OKI/VOX ADPCM packs two samples per byte; odd item counts used to be avoided here (KF-VOX-ODD: the codec touched one sample past the
+    # caller's buffer, an ASan abort in this harness). Repaired -- the codec holds the odd sample --, so VOX gets the counts of every other codec
+    vox = False
 
     def ev(x):
         return x + (x * ch) % 2 if vox and x > 0 else x
